@@ -14,7 +14,8 @@ from ..common import MachineryError, NCPU
 from .. import build, tlc, run, idb, cpplib
 
 BATCH = 150
-QUICK = ["ExportDesc_sig", "ExportDesc_roles", "ExportDesc_ops", "ExportDesc_bases", "ExportDesc_defbase", "ExportDesc_virt",
+QUICK = ["ExportDesc_sig", "ExportDesc_roles", "ExportDesc_ops", "ExportDesc_enums", "ExportDesc_redecl", "ExportDesc_props",
+         "ExportDesc_bases", "ExportDesc_defbase", "ExportDesc_virt",
          "ExportDesc_copy", "ExportDesc_nest", "ExportDesc_tops"]
 THOROUGH = [c + "_t" for c in QUICK]
 GXX = ["g++", "-std=c++17", "-fsyntax-only", "-w", "-D__published=public", "-D__begin_publish=", "-D__end_publish=", "-D__make_property(...)=", "-D__make_seq(...)=",
@@ -34,6 +35,25 @@ def variant_key(cs, v):
 def wrapper_key(db, w):
     return tuple((p["name"] if p["has_name"] else None, db.tyname(p["type"]), bool(p["is_this"]), bool(p["is_optional"]))
                  for p in w["parameters"])
+
+
+def decl_comments(cs, cms, name):
+    """texts of the comments of the declarations of one function: the first declaration documents `name`, the r-th
+    later one `name_r<r>`"""
+    return [cs.doc(st, name if r == 0 else "%s_r%d" % (name, r)) for r, st in enumerate(cms)]
+
+
+def expected_fn_comments(texts):
+    """(function comment, wrapper comment): the function collects the comments of all its declarations, in order; a
+    wrapper shows the longest of them (the first among equally long ones) - both documented in get_function"""
+    some = [t for t in texts if t]
+    fc = "\n\n".join(some)
+    wc, wl = "", 0
+    for t in some:
+        n = len(t) + (1 if t.startswith("//") else 0)      # the raw text of a // comment ends with its newline
+        if n > wl:
+            wc, wl = t, n
+    return fc, wc
 
 
 def compare_case(cs, db):
@@ -75,38 +95,97 @@ def compare_case(cs, db):
         if e_r != o_r:          # an overload set of which some, not all, members are virtual: "virtual" = some overload is
             mixed = len({bool(f["flags"]["virtual"]) for f in fs}) > 1
             bad.append(("roles of " + tag, e_r, o_r, ["C05-overload-virtual-first"] if mixed else []))
-        chk("wrapper variants (ordered parameters: name, type, this, optional) of " + tag,
-            sorted(variant_key(cs, v) for f in fs for v in f["variants"]), sorted(wrapper_key(db, w) for w in ws))
+        e_v = sorted((variant_key(cs, v) for f in fs for v in f["variants"]), key=str)
+        o_v = sorted((wrapper_key(db, w) for w in ws), key=str)
+        if e_v != o_v:
+            bad.append(("wrapper variants (ordered parameters: name, type, this, optional) of " + tag, e_v, o_v,
+                        ["C05-redecl-param-names"] if any(late_names(cs.cls[c - 1]["members"][f["i"] - 1]) for f in fs) else []))
         for f in fs:
             r = f["ret"]
             mine = {variant_key(cs, v) for v in f["variants"]}
+            fc, wc = expected_fn_comments(decl_comments(cs, f.get("cms") or [f["cm"]], cs.mname(c, f["i"])))
             for w in ws:
                 if wrapper_key(db, w) not in mine:
                     continue
                 chk("return of " + tag, (bool(r["has"]), cs.dbtype(r["t"]), bool(r["owns"])),
                     (bool(w["has_return_value"]), db.tyname(w["return_type"]), bool(w["caller_manages_return_value"])))
-                chk("wrapper comment of " + tag, cs.doc(f["cm"], cs.mname(c, f["i"])), w["comment"] if w["has_comment"] else "")
-        if len(fs) == 1:
-            chk("comment of " + tag, cs.doc(f0["cm"], cs.mname(c, f0["i"])), fn["comment"] if fn["has_comment"] else "")
-    # constructors taking a class of the same simple name: which wrapper is THE copy constructor
-    byc = {}
+                chk("wrapper comment of " + tag, wc, w["comment"] if w["has_comment"] else "")
+            if len(fs) == 1 and fc != (fn["comment"] if fn["has_comment"] else ""):
+                named_by_prop = cs.cls[c - 1]["members"][f["i"] - 1]["k"] == "getter" and \
+                    any(m["k"] in ("mprop", "mseq") and m["gi"] == f["i"] for m in cs.cls[c - 1]["members"])
+                bad.append(("comment of " + tag, fc, fn["comment"] if fn["has_comment"] else "",
+                            ["C05-accessor-comment-repeated"] if named_by_prop and fc else []))
+    # namespace-scope functions declared several times
+    for f in d.get("topfns", []):
+        n = cs.tname(f["t"])
+        tag = "%s (%s)" % (n, cs.top_text(f["t"]).replace("\n", " "))
+        fns = db.funcs.get(n, [])
+        if len(fns) != 1:
+            bad.append(("function records for " + tag, 1, len(fns)))
+            continue
+        ws = db.wrappers(fns[0])
+        e_v = sorted((variant_key(cs, v) for v in f["variants"]), key=str)
+        o_v = sorted((wrapper_key(db, w) for w in ws), key=str)
+        if e_v != o_v:
+            bad.append(("wrapper variants (ordered parameters: name, type, this, optional) of " + tag, e_v, o_v,
+                        ["C05-redecl-param-names"] if late_names(cs.tops[f["t"] - 1]) else []))
+        fc, wc = expected_fn_comments(decl_comments(cs, f["cms"], n))
+        chk("comment of " + tag, fc, fns[0]["comment"] if fns[0]["has_comment"] else "")
+        for w in ws:
+            chk("wrapper comment of " + tag, wc, w["comment"] if w["has_comment"] else "")
+    # constructors: declared ones with their copy-constructor flag, and the implicit ones [class.copy.ctor] leaves
     for e in d.get("ctors", []):
-        byc.setdefault(e["c"], []).append(e)
-    for c, es in sorted(byc.items()):
+        c = e["c"]
         C = cs.cscoped(c)
         sc = C + "::" + cs.cname(c)
         fns = db.funcs.get(sc, [])
-        tag = "%s (%s)" % (sc, " ".join(cs.member_text(c, e["i"]) for e in es))
-        if len(fns) != 1:
-            bad.append(("constructor function records for " + tag, 1, len(fns)))
-            continue
-        exp = [(variant_key(cs, v), bool(e["copy"])) for e in es for v in e["variants"]]
-        if not any(e["copy"] for e in es):          # the implicit copy constructor is exported next to the declared ones
+        decl = sorted(e["declared"], key=lambda x: x["i"])
+        tag = "%s (%s)" % (sc, " ".join(cs.member_text(c, x["i"]) for x in decl) or "none declared")
+        exp = [(variant_key(cs, v), bool(x["copy"])) for x in decl for v in x["variants"]]
+        if e["implicitCopy"]:
             exp.append((((None, C + " const *", False, False),), True))
-        obs = [(wrapper_key(db, w), bool(w["is_copy_constructor"])) for w in db.wrappers(fns[0])]
-        if sorted(exp, key=str) != sorted(obs, key=str):
-            bad.append(("constructors (parameters, is copy constructor) of " + tag, sorted(exp, key=str), sorted(obs, key=str),
-                        ["C05-copy-ctor-same-name"] if any(cs.cls[c - 1]["members"][e["i"] - 1]["k"] == "ctorof" for e in es) else []))
+        if e["implicitDefault"]:
+            exp.append(((), False))
+        obs = [(wrapper_key(db, w), bool(w["is_copy_constructor"])) for f in fns for w in db.wrappers(f)]
+        if sorted(exp, key=str) != sorted(obs, key=str) or len(fns) > 1:
+            K = cs.cls[c - 1]["members"]
+            fc = []
+            if any(K[x["i"] - 1]["k"] == "ctorof" for x in decl):
+                fc.append("C05-copy-ctor-same-name")
+            # a constructor that is a copy constructor only thanks to default arguments
+            if copy_by_defaults(cs.rec):
+                fc.append("C05-copy-ctor-extra-defaults")
+            bad.append(("constructors (parameters, is copy constructor) of " + tag, sorted(exp, key=str), sorted(obs, key=str), fc))
+    # properties and sequences
+    for e in d.get("props", []):
+        c, i = e["c"], e["i"]
+        C, n = cs.cscoped(c), cs.mname(c, i)
+        tag = "%s::%s (%s)" % (C, n, cs.member_text(c, i))
+        g = cs.mname(c, e["g"])
+        want = cs.doc(e["cm"], n) or cs.doc(e["gcm"], g)      # its own comment, else the accessor's (get_make_property)
+        if e["seq"]:
+            sq = db.seqs.get(C + "::" + n)
+            if not sq:
+                bad.append(("sequence record of " + tag, 1, 0))
+                continue
+            chk("sequence " + tag, (n, g + "n", g), (sq["seq_name"], sq["num_name"], sq["element_name"]))
+        else:
+            el = db.elems.get(C + "::" + n)
+            if not el:
+                bad.append(("element record of " + tag, 1, 0))
+                continue
+            chk("property " + tag, (n, True, False, C + "::" + g), (el["name"], bool(el["has_getter"]), bool(el["has_setter"]),
+                                                             (db.fn(el["getter"]) or {}).get("scoped_name")))
+            chk("comment of property " + tag, want, el["comment"] if el["has_comment"] else "")
+    for e in d.get("nprops", []):
+        t = db.types.get(cs.cscoped(e["c"]))
+        if t:
+            e_n = (e["elements"], e["seqs"], False)
+            o_n = (len(t["elements"]), len(t["make_seqs"]), 0 in t["elements"] + t["make_seqs"] + t["methods"] + t["constructors"]
+                   + t["casts"] + t["nested_types"])
+            if e_n != o_n:
+                bad.append(("elements / sequences listed by %s (no null entries)" % cs.cscoped(e["c"]), e_n, o_n,
+                            []))
     for e in d["data"]:
         c, i = e["c"], e["i"]
         C, n = cs.cscoped(c), cs.mname(c, i)
@@ -192,16 +271,21 @@ def compare_case(cs, db):
         vals = [(n + "v", vscope + "::" + n + "v", 0, "")]
         if kind == "enumc":                                       # enum E { v, /* about w */ w };
             vals.append((n + "w", vscope + "::" + n + "w", 1, "/* about %sw */" % n))
+        if kind == "enumz":                                       # enum E { v = sizeof(int), w };  (values: C07's subject)
+            vals = [(n + "v", vscope + "::" + n + "v", None, ""), (n + "w", vscope + "::" + n + "w", None, "")]
         fcls = ["C05-enum-inline-comment"] if kind == "enumc" else []
         if kind in ("enum1", "enumc") and e["cm"]:
             fcls.append("C05-enum-oneline-doc")
         e_e = (True, True, kind == "senum", cs.cscoped(c), [v[:3] for v in vals])
         o_e = (bool(t["is_enum"]), bool(t["is_nested"]), bool(t["is_scoped_enum"]), db.tyname(t["outer_class"]),
-               [(v["name"], v["scoped_name"], v["value"]) for v in t["enum_values"]])
+               [(v["name"], v["scoped_name"], None if kind == "enumz" else v["value"]) for v in t["enum_values"]])
         if e_e != o_e:
-            bad.append(("enum " + sc, e_e, o_e, ["C05-scoped-enum-value-scope"] if kind == "senum" else []))
+            bad.append(("enum " + sc, e_e, o_e, ["C05-scoped-enum-value-scope"] if kind == "senum" else
+                        ["C05-enum-unevaluated-initialiser"] if kind == "enumz" else []))
         e_c = (cs.doc(e["cm"], cs.mname(c, i)), [v[3] for v in vals])
         o_c = (t["comment"] if t["has_comment"] else "", [v["comment"] for v in t["enum_values"]])
+        if kind == "enumz":
+            fcls.append("C05-enum-unevaluated-initialiser")
         if e_c != o_c:
             bad.append(("comments of enum %s and its values" % sc, e_c, o_c, fcls))
     for e in d.get("typedefs", []):
@@ -243,6 +327,49 @@ def lib_classes(cs):
     """finding classes of a library: predicates over the INPUT only"""
     out = []
     return out
+
+
+def input_classes(rec):
+    """every finding class whose INPUT predicate holds for the library (used to measure how exact the predicates are:
+    libraries in the class vs. libraries of the class that actually fail)"""
+    out = set()
+    lib = rec["lib"]
+    if copy_by_defaults(rec):
+        out.add("C05-copy-ctor-extra-defaults")
+    for d in lib["tops"]:
+        if d["k"] == "sig" and late_names(d):
+            out.add("C05-redecl-param-names")
+    for k in lib["classes"]:
+        K = k["members"]
+        for j, m in enumerate(K, 1):
+            if m["k"] == "sig" and late_names(m):
+                out.add("C05-redecl-param-names")
+            if m["k"] == "getter" and m["cm"] and any(x["k"] in ("mprop", "mseq") and x["gi"] == j for x in K):
+                out.add("C05-accessor-comment-repeated")
+            if m["k"] == "enumz":
+                out.add("C05-enum-unevaluated-initialiser")
+            if m["k"] == "enumc":
+                out.add("C05-enum-inline-comment")
+            if m["k"] in ("enum1", "enumc") and m["cm"]:
+                out.add("C05-enum-oneline-doc")
+    return out
+
+
+def late_names(m):
+    """input predicate: the first declaration leaves a parameter unnamed and a later declaration names it"""
+    return any(not p["n"] for p in m["sig"]["ps"]) and any(r["n"] for r in m.get("re", []))
+
+
+def copy_by_defaults(rec):
+    """input predicate: a constructor whose first parameter is a reference to its class and whose further parameters
+    (at least one) all have default arguments - a copy / move constructor only thanks to the defaults"""
+    for c, k in enumerate(rec["lib"]["classes"], 1):
+        for m in k["members"]:
+            ps = m["sig"]["ps"]
+            if m["k"] == "sig" and m["sig"]["role"] == "ctor" and len(ps) >= 2 and ps[0]["t"]["b"] == "cls" \
+                    and ps[0]["t"]["c"] == c and ps[0]["t"]["m"] in ("cref", "ref", "rref") and all(p["d"] for p in ps[1:]):
+                return True
+    return False
 
 
 def run_batch(a):
@@ -372,23 +499,35 @@ def run_check(ctx):
         tlc.must_ok(res, cfg)
         got = sorted({json.dumps(r, sort_keys=True) for r in tlc.read_dump(dump)})
         ctx.notes.setdefault("cases_per_cfg", {})[cfg] = len(got)
-        (eseqs if "_enum" in cfg else seqs if cfg.startswith("Comment") else libs).extend(json.loads(x) for x in got)
+        (eseqs if cfg.startswith("CommentAttach_enum") else seqs if cfg.startswith("Comment") else libs).extend(json.loads(x) for x in got)
 
     # ---- libraries ----
     cases = list(enumerate(libs))
-    batches = [(ctx.tmp, b, cases[k:k + BATCH]) for b, k in enumerate(range(0, len(cases), BATCH))]
+    # libraries of a class known to abort the tool run alone, so that a batch is never lost to them
+    alone = [x for x in cases if copy_by_defaults(x[1])]
+    rest = [x for x in cases if not copy_by_defaults(x[1])]
+    batches = [(ctx.tmp, b, rest[k:k + BATCH]) for b, k in enumerate(range(0, len(rest), BATCH))]
+    batches += [(ctx.tmp, len(batches) + j, [x]) for j, x in enumerate(alone)]
     n_facts = 0
+    exact = ctx.notes.setdefault("finding_exactness_failing_of_in_class", {})
     for res, ba in zip(run.pmap(run_batch, batches, workers=min(NCPU, 10)), batches):
         if "gxx_error" in res:
             raise MachineryError("g++ rejects a rendered library (spec WF too weak): %s" % res["gxx_error"])
         if res["rc"] != 0:
+            one = ba[2][0] if len(ba[2]) == 1 else None
             ctx.violation("interrogate exit %s on a batch of valid libraries: %s" % (res["rc"], res["err"][-300:]),
-                          dict(batch=res["b"], cmd=res["cmd"]))
+                          dict(batch=res["b"], cmd=res["cmd"], program=cpplib.Case(*one).text() if one else None),
+                          classes=["C05-copy-ctor-extra-defaults"] if one and copy_by_defaults(one[1]) else [])
             continue
         for i, rec in ba[2]:
             cs = cpplib.Case(i, rec)
             d = rec["desc"]
-            n_facts += sum(len(d.get(k, [])) for k in ("fns", "data", "ctors", "dtors", "classes", "enums", "tops", "typedefs"))
+            failing = {c for item in res["bad"][i] if len(item) > 3 for c in item[3]}
+            for c in input_classes(rec):
+                e = exact.setdefault(c, [0, 0])
+                e[1] += 1
+                e[0] += c in failing
+            n_facts += sum(len(d.get(k, [])) for k in ("fns", "topfns", "data", "ctors", "props", "dtors", "classes", "enums", "tops", "typedefs"))
             for item in res["bad"][i][:3]:
                 what, e, o = item[:3]
                 ctx.violation("%s: model says %s, database says %s" % (what, e, o),
